@@ -503,12 +503,39 @@ def exit_rule(ctx, P):
         raise AnalysisIncomplete("exit census found only %d exits" % n)
 
 
+ITER_ARRAYS = (("fsg_search.c", "fsg_search_seg_iter", "fsg_seg_free", "itor->hist"),
+               ("ps_lattice.c", "lattice_seg_iter", "lattice_seg_free", "itor->links"),
+               ("ps_lattice.c", "astar_search_seg_iter", "astar_search_seg_free", "itor->nodes"))
+
+
+def iter_own_rule(ctx, P):
+    """The array a segment iterator walks is the iterator's own: allocated by the function that creates the
+    iterator and released by the iterator's free function.  An iterator that borrows an array kept elsewhere (a
+    cache in the search module, say) reads released memory as soon as the owner rebuilds it while the iterator is
+    still open - more audio and a second iterator are enough."""
+    r = ctx.rule("OWN.iter-array", "the array a segment iterator walks is allocated for that iterator by its constructor and released by its free function: an open iterator never depends on memory another call may release or rebuild", floor=6)
+    for (unit, ctor, dtor, path) in ITER_ARRAYS:
+        fs = [g for g in P.functions(unit) if g.name == ctor]
+        ds = [g for g in P.functions(unit) if g.name == dtor]
+        if not fs or not ds:
+            raise AnalysisIncomplete("anchor vanished: %s / %s in %s" % (ctor, dtor, unit))
+        f, d = fs[0], ds[0]
+        ctx.touch(f)
+        ctx.touch(d)
+        sts = [s_ for s_ in paths.stores(f) if s_["path"] == path and s_["op"] == "=" and s_["rhs"] is not None]
+        fresh = [s_ for s_ in sts if f.k(f.strip(s_["rhs"])) == "Call" and f.nodes[f.strip(s_["rhs"])].get("callee") in ("__ckd_calloc__", "__ckd_malloc__", "ckd_calloc", "ckd_malloc")]
+        ctx.check(r, bool(sts) and len(fresh) == len(sts), "%s:%s:fresh" % (ctor, path), f.where(sts[0]["node"]) if sts else f.where(f.root), "`%s` is not given an array allocated for this iterator (%s): the iterator walks memory owned by something that can release or rebuild it while the iterator is open" % (path, [f.canon(s_["rhs"], subst=False)[:50] for s_ in sts] or "never assigned"))
+        rel = [c for c in d.find("Call") if d.nodes[c].get("callee") in ("ckd_free",) and d.canon(d.args(c)[0], subst=False) == path]
+        ctx.check(r, len(rel) == 1, "%s:%s:released" % (dtor, path), d.where(rel[0]) if rel else d.where(d.root), "%s does not release `%s` exactly once" % (dtor, path))
+
+
 def run(ctx):
     P = ctx.P
     state_rule(ctx, P)
     null_rule(ctx, P)
     api = [f for f in P.repo_functions() if unit_of(f) in API_UNITS]
     c10.consume_rule(ctx, P, api)
+    iter_own_rule(ctx, P)
     c17.unwind_rule(ctx, P, api, floor=40, only_readers=False, extra_allocs=("copy_header_value", "string_join", "s3file_copy_nextword", "decoder_lookup_word", "fopen"), extra_frees=("fclose", "*_free"), extra_owned=("alignment_init", "fsg_model_init", "jsgf_grammar_new", "lattice_init", "fsg_model_read_s3file", "fsg_model_readfile", "jsgf_parse_string", "jsgf_parse_file", "jsgf_build_fsg", "hash_table_new", "*ctor"))
     receiver_rule(ctx, P)
     iter_rule(ctx, P, [f for f in P.repo_functions() if unit_of(f) not in GENERATED])
